@@ -80,12 +80,28 @@ func zzPickerChecks(t *torrent, peers []*peer.Peer, from int, sequential bool) {
 			allRequested = false
 		}
 	}
+	for _, src := range t.webseedSources {
+		if src.Downloader != nil {
+			allRequested = false // the end-game clause is stated for peer downloads only
+		}
+	}
 	for _, pe := range peers {
 		if pe.Closed || pe.PeerChoking || pe.Downloading || pe.Bitfield == nil {
 			continue
 		}
 		for i := uint32(0); i < zzPickPieces; i++ {
 			if t.pieces[i].Done || t.pieces[i].Writing || !pe.Bitfield.Test(i) {
+				continue
+			}
+			// the piece a web seed is fetching right now counts as requested
+			// (later pieces of its range may be taken over by peers)
+			byWebseed := false
+			for _, src := range t.webseedSources {
+				if src.Downloader != nil && src.Downloader.ReadCurrent() == i && i < src.Downloader.End {
+					byWebseed = true
+				}
+			}
+			if byWebseed {
 				continue
 			}
 			n := 0
